@@ -16,6 +16,7 @@ Variable cfgeqb : cfg -> cfg -> bool.
 Variable comp_cache : cfg -> ckey -> list V.
 Variable comp_result : cfg -> key -> list V -> list V.
 Variable rmode : list mode.
+Variable smode : list bool.
 
 Hypothesis ckeqb_sound : forall a b, ckeqb a b = true -> a = b.
 Hypothesis cfgeqb_sound : forall a b, cfgeqb a b = true -> a = b.
@@ -23,8 +24,9 @@ Hypothesis cfgeqb_sound : forall a b, cfgeqb a b = true -> a = b.
 Notation state := (state V ckey cfg).
 Notation read := (read V dV).
 Notation upd := (upd V dV).
-Notation step := (step V dV key ckey cfg ck ckeqb cfgeqb comp_cache comp_result rmode).
-Notation run := (run V dV key ckey cfg ck ckeqb cfgeqb comp_cache comp_result rmode).
+Notation step := (step V dV key ckey cfg ck ckeqb cfgeqb comp_cache comp_result rmode smode).
+Notation run := (run V dV key ckey cfg ck ckeqb cfgeqb comp_cache comp_result rmode smode).
+Notation store := (store V dV).
 Notation pure := (pure V dV key ckey cfg ck comp_cache comp_result rmode).
 Notation build := (build V dV).
 Notation reload := (reload V dV ckey).
@@ -87,6 +89,20 @@ Proof.
     rewrite app_length. cbn [length]. replace (length h + 1) with (S (length h)) by lia. reflexivity.
 Qed.
 
+(* with no reused buffer a miss stores into newly allocated cells *)
+Lemma store_fresh vs : forall sm bf h, forallb negb sm = true ->
+  fst (fst (store sm bf vs h)) = h ++ vs /\ snd (fst (store sm bf vs h)) = seq (length h) (length vs).
+Proof.
+  induction vs as [|v vs IH]; intros sm bf h F; cbn [Cache.store].
+  - cbn. rewrite app_nil_r. split; reflexivity.
+  - assert (Hd : hd false sm = false) by (destruct sm as [|[|] sm']; cbn in *; [reflexivity | discriminate | reflexivity]).
+    assert (Ft : forallb negb (tl sm) = true) by (destruct sm as [|b sm']; cbn in *; [reflexivity | apply andb_true_iff in F; apply F]).
+    rewrite Hd. destruct (IH (tl sm) (tl bf) (h ++ [v]) Ft) as [E1 E2].
+    destruct (store (tl sm) (tl bf) vs (h ++ [v])) as [[h' cells] b']. cbn [fst snd] in *. split.
+    + rewrite E1, <- app_assoc. reflexivity.
+    + rewrite E2, app_length. cbn [length seq]. replace (length h + 1) with (S (length h)) by lia. reflexivity.
+Qed.
+
 (* ---------- the invariant ---------- *)
 Definition cached_ok (s : state) : Prop :=
   forall c cells, In (c, cells) (cache V ckey cfg s) ->
@@ -143,26 +159,30 @@ Proof.
 Qed.
 
 Hypothesis all_fresh_rmode : all_fresh rmode = true.
+Hypothesis stores_fresh_smode : stores_fresh smode = true.
 
 (* one step preserves the invariant, and an Lij step returns `pure` *)
 Lemma step_ok s o : Inv s ->
   Inv (fst (step s o)) /\
   forall c k obs, snd (step s o) = Some (c, k, obs) -> obs = pure c k.
 Proof.
-  intros [CO HO]. destruct s as [h ca cf he]. destruct o as [k | call i v | | c' | ]; cbn [Cache.step].
+  intros [CO HO]. destruct s as [h ca cf he bf]. destruct o as [k | call i v | | c' | ]; cbn [Cache.step].
   - (* Lij *)
-    unfold step_lij. cbn [heap cache conf held].
+    unfold step_lij. cbn [heap cache conf held bufs].
     set (c := ck k).
     (* the cached cells used, after a possible allocation *)
-    assert (Hcase : exists h1 ca1 cells,
+    assert (Hcase : exists h1 ca1 cells bf1,
               (match lookup c ca with
-               | Some cells => (h, ca, cells)
-               | None => let '(h', cells) := alloc V h (comp_cache cf c) in (h', (c, cells) :: ca, cells)
-               end) = (h1, ca1, cells) /\
-              Inv (mkSt h1 ca1 cf he) /\ In (c, cells) ca1).
+               | Some cells => (h, ca, cells, bf)
+               | None => let '(h', cells, b') := store smode bf (comp_cache cf c) h in (h', (c, cells) :: ca, cells, b')
+               end) = (h1, ca1, cells, bf1) /\
+              Inv (mkSt h1 ca1 cf he bf1) /\ In (c, cells) ca1).
     { destruct (lookup c ca) as [cells|] eqn:L.
-      - exists h, ca, cells. split; [reflexivity|]. split; [split; assumption | apply lookup_In; exact L].
-      - unfold alloc. eexists _, _, _. split; [reflexivity|]. split; [|left; reflexivity]. split.
+      - exists h, ca, cells, bf. split; [reflexivity|]. split; [split; assumption | apply lookup_In; exact L].
+      - unfold stores_fresh in stores_fresh_smode.
+        destruct (store_fresh (comp_cache cf c) smode bf h stores_fresh_smode) as [E1 E2].
+        destruct (store smode bf (comp_cache cf c) h) as [[h' cells] b']. cbn [fst snd] in E1, E2. subst h' cells.
+        eexists _, _, _, _. split; [reflexivity|]. split; [|left; reflexivity]. split.
         + intros c0 cells0 [X|Hin]; cbn [heap cache conf].
           * injection X as <- <-. split; [apply read_alloc|].
             apply Forall_forall. intros x Hx. apply in_seq in Hx. rewrite app_length. lia.
@@ -173,7 +193,7 @@ Proof.
           split; [rewrite app_length; lia|]. intros c0 cells0 [X|Hc].
           * injection X as <- <-. intro Hx. apply in_seq in Hx. lia.
           * apply (Nr c0 cells0 Hc). }
-    destruct Hcase as (h1 & ca1 & cells & -> & [CO1 HO1] & Hin1).
+    destruct Hcase as (h1 & ca1 & cells & bf1 & -> & [CO1 HO1] & Hin1).
     destruct (CO1 c cells Hin1) as [R1 F1]. cbn [heap conf] in R1, F1.
     unfold all_fresh in all_fresh_rmode.
     rewrite (build_fresh rmode 0 _ cells h1 all_fresh_rmode).
@@ -192,7 +212,7 @@ Proof.
     + intros c1 k1 obs X. injection X as <- <- <-.
       rewrite <- Lv. rewrite read_alloc. unfold vals, Cache.pure. rewrite R1. reflexivity.
   - (* Mutate *)
-    cbn [heap cache conf held].
+    cbn [heap cache conf held bufs].
     destruct (Nat.ltb_spec i (length (nth call he []))) as [Li|Li]; cbn [fst snd]; [|split; [split; assumption | discriminate]].
     split; [|discriminate].
     set (refs := nth call he []) in *. set (r := nth i refs 0).
@@ -215,7 +235,7 @@ Proof.
     + intros ? ? [].
     + intros refs r Hr Hin. cbn [heap cache held] in *. destruct (HO refs r Hr Hin) as [Lr _]. split; [exact Lr | intros ? ? []].
   - (* SaveLoad *)
-    cbn [heap cache conf held]. destruct (reload h ca) as [h' ca'] eqn:R. cbn [fst snd]. split; [|discriminate].
+    cbn [heap cache conf held bufs]. destruct (reload h ca) as [h' ca'] eqn:R. cbn [fst snd]. split; [|discriminate].
     assert (F : forall c cells, In (c, cells) ca -> Forall (fun x => x < length h) cells).
     { intros c cells Hc. destruct (CO c cells Hc) as [_ F]. exact F. }
     destruct (reload_spec ca h h' ca' R F) as [L S]. split.
@@ -258,19 +278,22 @@ Hypothesis ckeqb_refl : forall a, ckeqb a a = true.
 Hypothesis three_slots : forall c x, length (comp_cache c x) = 3.
 
 Definition current_modes : list mode := [Alias 1; Fresh; Fresh; Fresh].
+Definition fresh_modes : list mode := [Fresh; Fresh; Fresh; Fresh].
+Definition no_buffers : list bool := [false; false; false].
+Definition eta_buffer : list bool := [false; false; true].      (* biascorrection() reuses one array *)
 
 (* after [Lij k; Mutate 0 0 v; Lij k] the second Lij returns the caller's edit v as L0vv, whatever the numerics *)
 Theorem alias_refuted c0 k v :
   exists obs1 obs2,
-    run V dV key ckey cfg ck ckeqb cfgeqb comp_cache comp_result current_modes (init V ckey cfg c0)
+    run V dV key ckey cfg ck ckeqb cfgeqb comp_cache comp_result current_modes no_buffers (init V ckey cfg c0)
         [Lij k; Mutate 0 0 v; Lij k] = [(c0, k, obs1); (c0, k, obs2)] /\
     nth 0 obs1 dV = nth 1 (comp_cache c0 (ck k)) dV /\ nth 0 obs2 dV = v.
 Proof.
   pose proof (three_slots c0 (ck k)) as L3.
   destruct (comp_cache c0 (ck k)) as [|g [|l [|e [|? ?]]]] eqn:CC; try discriminate. clear L3.
-  cbn [run step]. unfold step_lij. cbn [heap cache conf held init lookup]. unfold alloc. rewrite CC.
-  cbn [app length seq read map nth current_modes build].
-  cbn [Nat.ltb Nat.leb length nth]. cbn [upd length seq map Nat.eqb nth heap cache conf held].
+  cbn [run step]. unfold step_lij. cbn [heap cache conf held bufs init lookup]. rewrite CC.
+  cbn [store no_buffers hd tl app length seq read map nth current_modes build].
+  cbn [Nat.ltb Nat.leb length nth]. cbn [upd length seq map Nat.eqb nth heap cache conf held bufs].
   cbn [lookup]. rewrite ckeqb_refl. cbn [read map nth build app length].
   eexists _, _. split; [reflexivity|]. split; reflexivity.
 Qed.
@@ -282,12 +305,38 @@ Theorem alias_refuted_history c0 k v :
   v <> nth 1 (comp_cache c0 (ck k)) dV ->
   exists ops,
     ~ Forall (fun x => snd x = pure V dV key ckey cfg ck comp_cache comp_result current_modes (fst (fst x)) (snd (fst x)))
-        (run V dV key ckey cfg ck ckeqb cfgeqb comp_cache comp_result current_modes (init V ckey cfg c0) ops).
+        (run V dV key ckey cfg ck ckeqb cfgeqb comp_cache comp_result current_modes no_buffers (init V ckey cfg c0) ops).
 Proof.
   intro N. exists [Lij k; Mutate 0 0 v; Lij k].
   destruct (alias_refuted c0 k v) as (obs1 & obs2 & E & _ & E2). rewrite E.
   intro F. apply Forall_inv_tail in F. apply Forall_inv in F. cbn [fst snd] in F.
   apply N. rewrite <- E2, F. unfold pure. cbn [current_modes length seq map nth]. apply passthrough.
+Qed.
+
+(* A callee that reuses ONE buffer for the third cached array (etav): every cache entry is that buffer.  After
+   [Lij a; Lij b; Lij a] with different cache keys, the third call (a cache hit) computes from b's etav --
+   although every returned array is fresh and the caller edits nothing. *)
+Theorem shared_buffer_refuted c0 a b :
+  ckeqb (ck a) (ck b) = false -> ckeqb (ck b) (ck a) = false ->
+  exists obs1 obs2 obs3,
+    run V dV key ckey cfg ck ckeqb cfgeqb comp_cache comp_result fresh_modes eta_buffer (init V ckey cfg c0)
+        [Lij a; Lij b; Lij a] = [(c0, a, obs1); (c0, b, obs2); (c0, a, obs3)] /\
+    obs1 = pure V dV key ckey cfg ck comp_cache comp_result fresh_modes c0 a /\
+    obs3 = map (fun j => nth j (comp_result c0 a [nth 0 (comp_cache c0 (ck a)) dV; nth 1 (comp_cache c0 (ck a)) dV;
+                                                 nth 2 (comp_cache c0 (ck b)) dV]) dV) (seq 0 4).
+Proof.
+  intros Nab Nba.
+  pose proof (three_slots c0 (ck a)) as La. pose proof (three_slots c0 (ck b)) as Lb.
+  destruct (comp_cache c0 (ck a)) as [|ga [|la [|ea [|? ?]]]] eqn:CA; try discriminate.
+  destruct (comp_cache c0 (ck b)) as [|gb [|lb [|eb [|? ?]]]] eqn:CB; try discriminate. clear La Lb.
+  cbn [run step]. unfold step_lij. cbn [heap cache conf held bufs init lookup]. rewrite CA.
+  cbn [store eta_buffer hd tl app length seq read map nth fresh_modes build heap cache conf held bufs].
+  cbn [lookup]. rewrite Nab. cbn [lookup]. rewrite CB.
+  cbn [store eta_buffer hd tl app length seq read map nth fresh_modes build heap cache conf held bufs upd Nat.eqb].
+  cbn [lookup]. rewrite Nba, ckeqb_refl.
+  cbn [read map nth build app length heap cache conf held bufs fresh_modes].
+  eexists _, _, _. split; [reflexivity|]. split; [|reflexivity].
+  unfold pure. rewrite CA. reflexivity.
 Qed.
 
 End Refuted.
@@ -297,17 +346,23 @@ End Refuted.
 Definition ex_cache (cf : nat) (c : nat) : list nat := [100 + c + 1000 * cf; 200 + c + 1000 * cf; 300 + c + 1000 * cf].
 Definition ex_result (cf : nat) (k : nat * nat) (cont : list nat) : list nat :=
   [nth 1 cont 0; nth 0 cont 0 + snd k; nth 2 cont 0 + snd k; nth 0 cont 0 + nth 2 cont 0].
-Definition ex_run (rm : list mode) :=
-  run nat 0 (nat * nat) nat nat fst Nat.eqb Nat.eqb ex_cache ex_result rm (init nat nat nat 0).
+Definition ex_run (rm : list mode) (sm : list bool) :=
+  run nat 0 (nat * nat) nat nat fst Nat.eqb Nat.eqb ex_cache ex_result rm sm (init nat nat nat 0).
 
 Example history_example_fresh :
-  ex_run [Fresh; Fresh; Fresh; Fresh]
+  ex_run [Fresh; Fresh; Fresh; Fresh] [false; false; false]
     [Lij (1, 5); Mutate 0 0 7; Lij (1, 6); SaveLoad; Mutate 1 0 9; Reconfig 2; Lij (1, 5); Clearcache; Lij (1, 5)]
   = [(0, (1, 5), [201; 106; 306; 402]); (0, (1, 6), [201; 107; 307; 402]);
      (2, (1, 5), [2201; 2106; 2306; 4402]); (2, (1, 5), [2201; 2106; 2306; 4402])].
 Proof. vm_compute. reflexivity. Qed.
 
 Example history_example_alias :
-  ex_run [Alias 1; Fresh; Fresh; Fresh] [Lij (1, 5); Mutate 0 0 7; Lij (1, 6)]
+  ex_run [Alias 1; Fresh; Fresh; Fresh] [false; false; false] [Lij (1, 5); Mutate 0 0 7; Lij (1, 6)]
   = [(0, (1, 5), [201; 106; 306; 402]); (0, (1, 6), [7; 107; 307; 402])].
+Proof. vm_compute. reflexivity. Qed.
+
+(* one reused etav buffer: the hit for key 1 after key 2 was evaluated uses key 2's etav (302 instead of 301) *)
+Example history_example_buffer :
+  ex_run [Fresh; Fresh; Fresh; Fresh] [false; false; true] [Lij (1, 5); Lij (2, 5); Lij (1, 5)]
+  = [(0, (1, 5), [201; 106; 306; 402]); (0, (2, 5), [202; 107; 307; 404]); (0, (1, 5), [201; 106; 307; 403])].
 Proof. vm_compute. reflexivity. Qed.
